@@ -311,17 +311,22 @@ Proof.
   - rewrite I. simpl. rewrite N.eqb_refl. reflexivity.
 Qed.
 
-Theorem no_ack_when_all : forall c h t m,
+(* UNCHANGED selecting/rebooting paths: true outside the recorded class (the client's lease
+   acknowledged but past its expiry) *)
+Theorem no_ack_when_partial : forall c h t m,
   In t (trace c (init c) h) -> op_msg (t_op t) = Some m ->
-  c12_no_ack_when c (t_pre t) m (t_reply t) = true.
+  known_c12_expired t = false ->
+  c12_no_ack_when c (t_pre t) m (op_now (t_op t)) (t_reply t) = true.
 Proof.
-  intros c h t m Hin Hm. unfold c12_no_ack_when.
+  intros c h t m Hin Hm Hk. unfold c12_no_ack_when.
   destruct (t_reply t) as [r|] eqn:Hr; [|apply orb_true_r].
   destruct (is_ack r) eqn:Ha; [|apply orb_true_r]. simpl. rewrite orb_false_r. apply negb_true_iff.
   destruct (trace_reply c h t r Hin Hr) as [_ [_ G]].
   destruct (ack_of_good _ _ _ _ _ m G Hm Ha) as [x [Hx [[[P _] _] [[l0 [T [M St]]] [As Os]]]]].
   rewrite parse_tbl in T.
-  unfold cannot_honour, lease_unknown, lease_mismatch, outside_subnet, client_net, sess_at.
+  unfold known_c12_expired in Hk. rewrite Hm in Hk.
+  unfold cannot_honour. rewrite Hk.
+  unfold lease_unknown, lease_mismatch, outside_subnet, client_net, sess_at.
   rewrite Os, T, As, M, N.eqb_refl. rewrite (in_pool_contains _ _ _ P).
   destruct St as [[S [X O]]|[S I]]; rewrite S; simpl.
   - rewrite O. simpl. rewrite N.eqb_refl. reflexivity.
